@@ -73,6 +73,7 @@ package csblob
 //@   nopanic
 //@   ensures @blob_and_its_directories_present_on_success ret1 == nil ==> ret0 != nil && forall(k, 0, len(ret0.Directories), ret0.Directories[k] != nil)
 //@   loop 0 sig "for _, item := range items" invariant sig != nil && forall(k, 0, len(sig.Directories), sig.Directories[k] != nil)
+//@   on call sort.Slice(_, _) ret (): assume atcall(forall(k, 0, len(sig.Directories), sig.Directories[k] != nil)) ==> forall(k, 0, len(sig.Directories), sig.Directories[k] != nil)
 
 //@ func hashFunc
 //@   property C11
